@@ -1,20 +1,5 @@
-"""Claims per property (text that goes into MANIFEST.json).  A property is claimed when a module
-harness/props/<id>.py and a theorem file lean/WB/Props/<ID>.lean exist; everything else is listed under
-not_applicable with the reason given here."""
+"""Properties that are NOT claimed, with the reason (goes to MANIFEST.not_applicable).
+Claimed properties carry their own CLAIM dict in harness/props/<id>.py."""
 
-CLAIMS = {
-    "C15": dict(
-        design="3/C15",
-        technique="Lean 4 proof over an index-level model (get_borders / select_window_degen) + exact differential "
-                  "correspondence on dyadic energies + property oracle on the real code",
-        text="Theorems (for every band count, threshold, window and Kramers flag): the blocks partition the bands, "
-             "internal gaps <= thresh, every boundary has a gap > thresh (even index with Kramers) and every such "
-             "index is a boundary; window selection never separates bands closer than thresh, include only adds, "
-             "exclude only removes.  The model is tied to the code by running both on the same exact inputs.",
-        note="Trusted: Lean kernel + Mathlib; the harness; numpy float comparisons on dyadic inputs are exact. "
-             "Tabulator value assignment and Data_K glue are checked on the real code, not modelled.",
-    ),
-}
-
-PENDING_REASON = "check not built yet in this session (see DESIGN.md section 3 for the planned model and theorems)"
+PENDING_REASON = "check not built yet (DESIGN.md section 3 describes the planned model and theorems)"
 NOT_APPLICABLE = {}
